@@ -26,12 +26,12 @@ type Host struct {
 	Yields   int
 	OnYield  func(h *Host) // live-mode drain, run by builtin.__yield
 
-	C          Counters
-	Escapes    []string // panics that escaped an entry point
+	C           Counters
+	Escapes     []string // panics that escaped an entry point
 	EscapeSites []string // goatlang source position that raised each of them (not part of the history hash)
-	BudgetHits int
-	rnd        *PRNG
-	Args       []string
+	BudgetHits  int
+	rnd         *PRNG
+	Args        []string
 }
 
 // NewHost builds a VM whose real-world natives are replaced by simulator-owned
@@ -136,6 +136,11 @@ func (h *Host) stubRealWorld(vm *goatlang.VM) {
 	}))
 }
 
+// MaxBudget is the largest instruction budget a top-level call may get: a
+// script call costs at least one instruction and about 1.3 KB of Go stack, the
+// Go runtime aborts the process at 1 GB of stack, and that cannot be recovered.
+const MaxBudget = 200000
+
 // ErrEscaped is returned by the wrappers when a Go panic escaped an entry point.
 type ErrEscaped struct{ Val string }
 
@@ -143,7 +148,11 @@ func (e *ErrEscaped) Error() string { return "ESCAPED PANIC: " + e.Val }
 
 func (h *Host) enter(kind, what string) {
 	if h.Depth == 0 {
-		goatlang.VerifSetBudget(h.Budget)
+		b := h.Budget
+		if b < 0 || b > MaxBudget {
+			b = MaxBudget
+		}
+		goatlang.VerifSetBudget(b)
 	}
 	h.Depth++
 	if h.Depth > h.MaxDepth {
